@@ -9,9 +9,9 @@ direction of a simplex, ...), so that domain constraints stay with the caller.  
 largest step that will ever be taken (the caller guarantees that [-h0, h0] stays inside the
 domain and far from any non-smooth point).
 
-Tableau (steps h_i = h0 / 2**i):
-    A[i][0] = (f(h_i) - f(-h_i)) / (2 h_i)                      error O(h_i^2)
-    A[i][j] = (4^j A[i][j-1] - A[i-1][j-1]) / (4^j - 1)         error O(h_i^(2j+2))
+Tableau (steps h_i = h0 / ratio**i, ratio = 1.7):
+    A[i][0] = (f(h_i) - f(-h_i)) / (2 h_i)                                        error O(h_i^2)
+    A[i][j] = A[i][j-1] + (A[i][j-1] - A[i-1][j-1]) / ((h_(i-j)/h_i)^2 - 1)       error O(h^(2j+2))
 The returned value is the entry with the smallest error estimate
     e[i][j] = max(|A[i][j] - A[i][j-1]|, |A[i][j] - A[i-1][j-1]|)
 (Numerical Recipes, dfridr) to which the round-off floor of the difference quotient,
@@ -25,12 +25,16 @@ import math
 EPS = 2.220446049250313e-16
 
 
-def derivative(f, h0, levels=3, max_levels=6, rel_target=1e-9, abs_target=1e-9, f_eps=8.0, probes=3, probe_rel=1e-6):
+def derivative(f, h0, levels=3, max_levels=6, rel_target=1e-9, abs_target=1e-9, f_eps=8.0, probes=3, probe_rel=1e-6, ratio=1.7):
     """Ridders' extrapolation of the central difference quotient of t -> f(t) at t = 0.
 
     levels      rows always computed
-    max_levels  rows are added (halving the step) while the error estimate exceeds
+    max_levels  rows are added (dividing the step by `ratio`) while the error estimate exceeds
                 rel_target*|d| + abs_target and keeps improving
+    ratio       step ratio between rows; deliberately not 2: with steps h0/2^i the perturbed
+                arguments share their mantissa and the rounding errors of f at the different rows
+                were seen to be coherent (three rows agreeing to 1e-7 on a value that is off by
+                2e-5), which defeats the internal error estimate
     probes      number of extra evaluations at h0 (1 + k probe_rel), k = 1..probes, used to measure
                 the evaluation noise of f itself: second differences of these closely spaced values
                 contain no signal (spacing^2 f'' is far below one ulp), only rounding noise, so
@@ -48,6 +52,7 @@ def derivative(f, h0, levels=3, max_levels=6, rel_target=1e-9, abs_target=1e-9, 
     evals = 0
     finite = True
     sigma = 0.0
+    hs = []
     h = h0
     i = 0
     while True:
@@ -69,10 +74,10 @@ def derivative(f, h0, levels=3, max_levels=6, rel_target=1e-9, abs_target=1e-9, 
                 finite = False
                 break
         row = [(fp - fm) / (2.0 * h)]
-        fac = 4.0
+        hs.append(h)
         for j in range(1, i + 1):
-            row.append((fac * row[j - 1] - A[i - 1][j - 1]) / (fac - 1.0))
-            fac *= 4.0
+            fac = (hs[i - j] / h) ** 2  # Neville extrapolation in h^2 to h = 0
+            row.append(row[j - 1] + (row[j - 1] - A[i - 1][j - 1]) / (fac - 1.0))
         A.append(row)
         noise = (3.0 * sigma + f_eps * EPS * max(fmax, 1e-300)) / h
         if i == 0 and best is None:
@@ -91,7 +96,7 @@ def derivative(f, h0, levels=3, max_levels=6, rel_target=1e-9, abs_target=1e-9, 
                 break
             if row_best > 2.0 * best_err or noise > best_err:
                 break  # halving the step no longer helps: round-off dominates
-        h *= 0.5
+        h /= ratio
     if not finite:
         return float("nan"), float("inf"), {"rows": i, "h": h, "fmax": fmax, "noise": float("inf"), "sigma": sigma, "evals": evals, "finite": False}
     noise = (3.0 * sigma + f_eps * EPS * max(fmax, 1e-300)) / best_h
@@ -119,7 +124,9 @@ def selftest():
     d, err, _ = derivative(lambda t: math.exp(1.0 + t), 1e-2)
     assert abs(d - math.e) <= err and err < 1e-9, (d, err)
     d, err, _ = derivative(lambda t: math.log(0.01 + t), 0.01 / 16)
-    assert abs(d - 100.0) <= err and err < 1e-5, (d, err)
+    assert abs(d - 100.0) <= err and err < 1e-4, (d, err)
+    d2, err2, _ = derivative(lambda t: math.exp(1.0 + t), 1e-2, ratio=2.0)
+    assert abs(d2 - math.e) <= err2 and err2 < 1e-9, (d2, err2)
     d, err, _ = derivative(lambda t: math.sin(3.0 * (0.5 + t)) * 1e3, 1e-3)
     assert abs(d - 3e3 * math.cos(1.5)) <= err and err < 1e-6, (d, err)
     # large offset: the estimate must grow with the round-off of f
